@@ -1,11 +1,37 @@
 import BreezyVerif.Model.C13
 import BreezyVerif.Generated.C13
+import BreezyVerif.Props.C13
 /-! C13 — T1 tie: the order of "update metadata" and "discard replaced content"
 found in the current source of both `apply` methods is the one theorem
-`metadata_agrees` needs. -/
+`metadata_agrees` needs; and the rollback guarantee that holds for the code
+variant found by probing the real code (is the mode change of
+`_set_executability` undone by a failed `apply`?). -/
+set_option autoImplicit false
 namespace BreezyVerif.C13
 
 theorem apply_order_bzr : applyOrderBzr = .metadataFirst := by decide
 theorem apply_order_git : applyOrderGit = .metadataFirst := by decide
+
+/-- what a failed removal / insertion phase guarantees for variant `jc`:
+journalled mode changes — the very same file system; un-journalled — the same
+file system up to executable bits (and `execbit_witness` shows that is all) -/
+def RollbackGuarantee (jc : Bool) : Prop :=
+  (jc = true ∧ ∀ (fs : FS) (ops : List Op) (fault : Option Nat),
+      noClobber true { fs := fs } ops fault = true →
+      rollback (runOps true { fs := fs } ops fault).1.fs (runOps true { fs := fs } ops fault).1.past
+        = (fs, none)) ∨
+  (jc = false ∧ ∀ (fs : FS) (ops : List Op) (fault : Option Nat),
+      noClobber false { fs := fs } ops fault = true →
+      ∃ r, rollback (runOps false { fs := fs } ops fault).1.fs
+              (runOps false { fs := fs } ops fault).1.past = (r, none) ∧
+        eraseExec r = eraseExec fs)
+
+theorem rollbackGuarantee (jc : Bool) : RollbackGuarantee jc := by
+  cases jc
+  · exact Or.inr ⟨rfl, rollback_restores_modulo_exec⟩
+  · exact Or.inl ⟨rfl, rollback_restores⟩
+
+theorem source_rollback_bzr : RollbackGuarantee chmodJournalledBzr := rollbackGuarantee _
+theorem source_rollback_git : RollbackGuarantee chmodJournalledGit := rollbackGuarantee _
 
 end BreezyVerif.C13
